@@ -211,8 +211,9 @@ theorem reads_independent_of_schedule (owner : Nat → Option Nat) (i : Nat) (s1
 
 /-! ### (d) one instant -/
 
-/-- the wall clock is read in exactly one place of the evaluator packages: `InitializeContext` -/
-theorem clock_read_once : clockCalls = [("fhirpath/internal/expr", "InitializeContext", "time.Now")] := by decide +kernel
+/-- the wall clock is read in exactly one place of the evaluator packages, `InitializeContext`, and the
+    reading is normalised to UTC before it is stored (the outermost method of the call chain is `UTC`) -/
+theorem clock_read_once : clockCalls = [("fhirpath/internal/expr", "InitializeContext", "time.Now -> UTC")] := by decide +kernel
 
 -- non-vacuity: two disciplined threads sharing location 0 and owning 1 and 2
 example : Disciplined (fun l => if l = 1 then some 0 else if l = 2 then some 1 else none)
